@@ -146,10 +146,29 @@ Fixpoint ds_insert {A} (cmp : A -> A -> comparison) (d : A) (l : list A) : list 
     end
   end.
 
-(** [DirectiveSet::add]: raise [max_level], then insert/replace *)
+(** does [binary_search] find an equal directive ([Ok]: it is replaced)? *)
+Fixpoint ds_replaced {A} (cmp : A -> A -> comparison) (d : A) (l : list A) : bool :=
+  match l with
+  | [] => false
+  | x :: r =>
+    match cmp d x with
+    | Eq => true
+    | Lt => false
+    | Gt => ds_replaced cmp d r
+    end
+  end.
+
+(** [self.directives.iter().map(|d| *d.level()).max().unwrap_or(LevelFilter::OFF)] *)
+Definition ds_levels_max {A} (lvl : A -> levelfilter) (l : list A) : levelfilter :=
+  fold_left (fun acc d => lf_max acc (lvl d)) l OFF.
+
+(** [DirectiveSet::add]: raise [max_level]; insert, or replace an equally specific directive and then recompute
+    [max_level] over all directives (the replaced one may have been the one that set it) *)
 Definition ds_add {A} (cmp : A -> A -> comparison) (lvl : A -> levelfilter) (s : dset A) (d : A) : dset A :=
-  {| ds_dirs := ds_insert cmp d (ds_dirs s);
-     ds_max := if frank (ds_max s) <? frank (lvl d) then lvl d else ds_max s |}.
+  let raised := if frank (ds_max s) <? frank (lvl d) then lvl d else ds_max s in
+  let dirs := ds_insert cmp d (ds_dirs s) in
+  {| ds_dirs := dirs;
+     ds_max := if ds_replaced cmp d (ds_dirs s) then ds_levels_max lvl dirs else raised |}.
 Definition ds_of {A} (cmp : A -> A -> comparison) (lvl : A -> levelfilter) (ds : list A) : dset A :=
   fold_left (ds_add cmp lvl) ds ds_empty.
 
